@@ -70,6 +70,8 @@ func runStoreHist(op M) any {
 	fs := &storage.FileSystem{Options: storage.FileSystemOptions{Path: dir}}
 	stored := map[string]*sbom.Document{}
 	outs := []any{}
+	// "shareOpts": the caller keeps one options value per setting and passes it to every store
+	sharedNC, sharedPlain := &storage.StoreOptions{NoClobber: true}, &storage.StoreOptions{NoClobber: false}
 	for _, st := range asList(op["steps"]) {
 		sm, ok := st.(M)
 		if !ok {
@@ -85,6 +87,12 @@ func runStoreHist(op M) any {
 			var o *storage.StoreOptions
 			if sm["nilOpts"] != true {
 				o = &storage.StoreOptions{NoClobber: sm["nc"] == true}
+				if op["shareOpts"] == true {
+					o = sharedPlain
+					if sm["nc"] == true {
+						o = sharedNC
+					}
+				}
 			}
 			if err := fs.Store(d, o); err != nil {
 				outs = append(outs, "err")
@@ -112,8 +120,17 @@ func runStoreHist(op M) any {
 					_ = os.WriteFile(p, nil, 0o644)
 				}
 			case "garbage":
-				if _, err := os.Stat(p); err == nil {
-					_ = os.WriteFile(p, []byte{0xff, 0xff, 0xff, 0x07, 0x01}, 0o644)
+				if data, err := os.ReadFile(p); err == nil {
+					cut := 0
+					if c, ok := sm["cut"].(float64); ok {
+						cut = int(c)
+					}
+					if cut > 0 && len(data) > cut {
+						// the entry loses its last bytes (a torn tail): its head, with the identifier, is intact
+						_ = os.WriteFile(p, data[:len(data)-cut], 0o644)
+					} else {
+						_ = os.WriteFile(p, []byte{0xff, 0xff, 0xff, 0x07, 0x01}, 0o644)
+					}
 				}
 			case "foreign":
 				if _, err := os.Stat(p); err == nil {
@@ -146,6 +163,9 @@ func runStoreHist(op M) any {
 	// confinement: nothing but the store directory chain and the sentinel under the root, and
 	// only entry files (and leftovers of failed stores) directly inside the directory
 	var stray []any
+	if !sharedNC.NoClobber || sharedPlain.NoClobber {
+		stray = append(stray, "(not a file: the options value the caller passes to its stores was changed by a store)")
+	}
 	if st, err := os.Stat(tmpOut); err == nil && st.ModTime().Unix() != aged.Unix() {
 		stray = append(stray, "(something was created in the temporary directory of the process, "+tmpOut+")")
 	}
@@ -373,6 +393,9 @@ func storeGen(g *G, tier string) []M {
 				steps = append(steps, M{"s": "retrieve", "id": id})
 			case c < 18:
 				steps = append(steps, M{"s": "corrupt", "id": id, "how": g.Pick([]string{"truncate0", "garbage", "foreign", "delete", "dir"})})
+				if g.Chance(0.5) {
+					steps[len(steps)-1].(M)["cut"] = 1.0 // for "garbage": the entry's last byte is lost instead
+				}
 			case c < 19:
 				steps = append(steps, M{"s": "rmdir"})
 			default:
@@ -382,8 +405,11 @@ func storeGen(g *G, tier string) []M {
 		if g.Chance(0.5) {
 			// directed: store, damage that very entry, retrieve it, store again, retrieve
 			id := g.Pick(storeIDs)
-			steps = append(steps, M{"s": "store", "id": id, "body": float64(g.Int(40)), "nc": false},
-				M{"s": "corrupt", "id": id, "how": g.Pick([]string{"truncate0", "garbage", "foreign", "delete", "dir"})},
+			how := M{"s": "corrupt", "id": id, "how": g.Pick([]string{"truncate0", "garbage", "garbage", "foreign", "delete", "dir"})}
+			if g.Chance(0.6) {
+				how["cut"] = 1.0
+			}
+			steps = append(steps, M{"s": "store", "id": id, "body": float64(g.Int(40)), "nc": false}, how,
 				M{"s": "retrieve", "id": id},
 				M{"s": "store", "id": id, "body": float64(g.Int(40)), "nc": g.Chance(0.5)},
 				M{"s": "retrieve", "id": id})
@@ -397,6 +423,17 @@ func storeGen(g *G, tier string) []M {
 		ops = append(ops, M{"op": "storeHist", "sub": g.Pick([]string{"store", "a/b/store", "s p/dir"}), "steps": steps})
 		if i%3 == 1 {
 			ops[len(ops)-1]["tmp"] = "missing" // the process has no usable temporary directory
+		}
+		if i%2 == 1 {
+			ops[len(ops)-1]["shareOpts"] = true
+		}
+		if i%8 == 3 {
+			// directed: a no-clobber store into a directory that is not there yet, then the same
+			// identifier again with the same options value: the second store is refused
+			id := g.Pick(storeIDs)
+			ops[len(ops)-1]["steps"] = []any{M{"s": "store", "id": id, "body": 1.0, "nc": true}, M{"s": "store", "id": id, "body": 2.0, "nc": true},
+				M{"s": "retrieve", "id": id}, M{"s": "rmdir"}, M{"s": "store", "id": id, "body": 3.0, "nc": true}, M{"s": "store", "id": id, "body": 4.0, "nc": true}, M{"s": "retrieve", "id": id}}
+			ops[len(ops)-1]["shareOpts"] = true
 		}
 	}
 	return ops
@@ -422,6 +459,10 @@ func oracleStore(op M, res any, exec func(M) any) []Finding {
 		return out
 	}
 	for _, s := range asList(r["stray"]) {
+		if t := asStr(s); strings.HasPrefix(t, "(not a file: ") {
+			add("C19", "%s", strings.TrimSuffix(strings.TrimPrefix(t, "(not a file: "), ")"))
+			continue
+		}
 		add("C19", "a file or directory was created outside the configured directory: %s", asStr(s))
 	}
 	steps := asList(op["steps"])
